@@ -21,7 +21,7 @@ MANIFEST = dict(
          "read, from construct() and on the Pipeline model (C02_cover_sequential_partial, C02_cover_from_start_partial, "
          "C02_cover_sequential_pipeline_partial); no stale descriptor in the reader's tables at any drained point of these histories - every key of _path_for_wd and every value of _wd_for_path is a live kernel watch (clauses of the watch invariant; C02_tables_live_synced, C02_tables_live, and as C11's hypothesis C02_tidy_from); "
          "the probe law (C02_probe) and the non-recursive law (C02_flat); the pinned code is "
-         "refuted (C02_pinned_movein_refuted, C02_pinned_mkdir_rename_refuted, and with c_fix_moveout := false C02_f10d_pinned_refuted, "
+         "refuted (C02_pinned_movein_refuted, C02_pinned_mkdir_rename_refuted, and with c_fix_moveout := c_fix_relabel := false C02_f10d_pinned_refuted, "
          "C02_f10b_pinned_stale). Extra hypotheses of the move-out theorems: full event mask; the operation right after a directory "
          "move-out is a covered operation in a directory of the tree (so it produces a record) that notifies no directory at or "
          "below the departed directory's new place (in particular not a second move-out). Stated, not proved in general "
